@@ -29,7 +29,10 @@ def one(args):
         return seed, "harness:" + repr(e)[:200], [], {}
     finally:
         signal.alarm(0)
-    return seed, r["outcome"], r["violations"], r.get("probes", {})
+    pr = dict(r.get("probes", {}))
+    for k, v in r.get("faults", {}).items():
+        pr["fault:" + k] = v
+    return seed, r["outcome"], r["violations"], pr
 
 
 def main():
